@@ -528,7 +528,7 @@ class Field(mixin.FieldDomain, abstract.PropertiesData):
         if inplace:
             f = self
         else:
-            f = self.copy(data=False)
+            f = self.copy()
 
         if axes is None:
             existing_axes = f.get_data_axes(default=None)
